@@ -64,7 +64,7 @@ theorem Ok_eol_nls (env : Env) (k : Nat) (c0 : Char) (t : List Char) (h1 : isWs 
 
 /-- a domain-length statement with an arbitrary continuation after the line end -/
 theorem Ok_dl_body' (env : Env) (kc : Char) (ks : List Char) (hk : isWs kc = false) (hk' : kc ≠ '#')
-    (a : Nat) (c : Char) (m : List Char) (st : Bool) (b : Nat) (sign : Char) (hs : sign = '=' ∨ sign = ':')
+    (a : Nat) (ha : 0 < a) (c : Char) (m : List Char) (st : Bool) (b : Nat) (sign : Char) (hs : sign = '=' ∨ sign = ':')
     (cc : Nat) (X tail : List Char) (NL NE : Nat) (pend : Pos)
     (hc : c ∈ identChars) (hm : ∀ x ∈ m, x ∈ identChars)
     (hlen : Ok env NL {} pil_dlength { rest := List.replicate cc ' ' ++ (X ++ tail), past := false }
@@ -75,7 +75,7 @@ theorem Ok_dl_body' (env : Env) (kc : Char) (ks : List Char) (hk : isWs kc = fal
       (pend, [.grp [.tok "dl-domain", .tok (String.ofList (c :: m ++ star st)), .tok (String.ofList X)]]) := by
   unfold dlBody dlText
   have h1 := Ok_kw env kc ks (List.replicate a ' ' ++ (c :: m ++ (star st ++ (List.replicate b ' ' ++
-    (sign :: (List.replicate cc ' ' ++ (X ++ tail))))))) hk hk'
+    (sign :: (List.replicate cc ' ' ++ (X ++ tail))))))) hk hk' (OutHd_kw_blanks a ha _)
   have h2 := Ok_domain env a c m st _ hc hm (OutHd_sign b sign hs (List.replicate cc ' ' ++ (X ++ tail)))
   have h3 := Ok_assign env b sign hs (List.replicate cc ' ' ++ (X ++ tail))
   have := Ok_group (Ok_tag (t := "dl-domain") (Ok_seq (OkSeq_cons h1 (OkSeq_cons h2 (OkSeq_cons h3
@@ -118,7 +118,7 @@ theorem two_dl (nc1 : Char) (m1 : List Char) (dc1 : Char) (dm1 : List Char) (k :
   -- second statement
   have tl2 : OutHd (fun x => x ∉ identChars) ['\n'] := OutHd_cons _ _ _ (outside_facts '\n' (by decide))
   have e2 : EolTail ['\n'] := Or.inl (skipIgn_cons '\n' [] (by decide) (by decide))
-  have b2 := Ok_dl_body pil_env 'l' ['e', 'n', 'g', 't', 'h'] (by decide) (by decide) 1 nc2 m2 false 1 '='
+  have b2 := Ok_dl_body pil_env 'l' ['e', 'n', 'g', 't', 'h'] (by decide) (by decide) 1 (by decide) nc2 m2 false 1 '='
     (Or.inl rfl) 1 (dc2 :: dm2) ['\n'] _ h2 h2' (Ok_dlength_num pil_env 1 dc2 dm2 ['\n'] hd2 hd2' tl2) e2
   have s2 := Ok_dl_stmt pil_env lengthKw (dlText 1 nc2 m2 false 1 '=' 1 (dc2 :: dm2) ['\n']) (Or.inl rfl) _ _ _
     (No_sl_kw pil_env lengthKw _ (Or.inl rfl)) b2
@@ -130,7 +130,7 @@ theorem two_dl (nc1 : Char) (m1 : List Char) (dc1 : Char) (dm1 : List Char) (k :
   have eol1 : Ok pil_env (k + 4) {} (.many1 (.suppress .lineEnd))
       { rest := '\n' :: (List.replicate k '\n' ++ T2), past := false } ({ rest := T2, past := false }, []) := by
     rw [hT2']; exact Ok_eol_nls pil_env k 'l' _ (by decide) (by decide) (by decide)
-  have b1 := Ok_dl_body' pil_env 'l' ['e', 'n', 'g', 't', 'h'] (by decide) (by decide) 1 nc1 m1 false 1 '='
+  have b1 := Ok_dl_body' pil_env 'l' ['e', 'n', 'g', 't', 'h'] (by decide) (by decide) 1 (by decide) nc1 m1 false 1 '='
     (Or.inl rfl) 1 (dc1 :: dm1) ('\n' :: (List.replicate k '\n' ++ T2)) _ _ _ h1 h1'
     (Ok_dlength_num pil_env 1 dc1 dm1 _ hd1 hd1' tl1) eol1
   have s1 := Ok_dl_stmt pil_env lengthKw (dlText 1 nc1 m1 false 1 '=' 1 (dc1 :: dm1)
@@ -183,7 +183,7 @@ theorem OutTail_nl_cons (r : List Char) : OutTail ('\n' :: r) :=
     '\n', r, skipIgn_cons '\n' r (by decide) (by decide), outside_facts '\n' (by decide)⟩
 
 def complexBody : G :=
-  .group (.tag "strand-complex" (.seq [.suppress (.lit ['c', 'o', 'm', 'p', 'l', 'e', 'x']), pil_identifier,
+  .group (.tag "strand-complex" (.seq [.suppress (.kw ['c', 'o', 'm', 'p', 'l', 'e', 'x'] identChars), pil_identifier,
     .suppress pil_assign, .opt (.suppress .lineEnd), .group (.many1 pil_domain), .opt (.suppress .lineEnd),
     pil_dotbracket, .many1 (.suppress .lineEnd)]))
 
@@ -192,7 +192,7 @@ def complexText (a : Nat) (c : Char) (m : List Char) (b : Nat) (sign : Char) (d 
   List.replicate a ' ' ++ (c :: m ++ (List.replicate b ' ' ++ (sign :: ('\n' :: (d ++ (spDoms ds ++
     ('\n' :: (dbc :: dbm ++ ['\n']))))))))
 
-theorem Ok_complex_body (env : Env) (a : Nat) (c : Char) (m : List Char) (b : Nat) (sign : Char)
+theorem Ok_complex_body (env : Env) (a : Nat) (ha : 0 < a) (c : Char) (m : List Char) (b : Nat) (sign : Char)
     (hs : sign = '=' ∨ sign = ':') (d : List Char) (ds : List (List Char)) (dbc : Char) (dbm : List Char)
     (hc : c ∈ identChars) (hm : ∀ x ∈ m, x ∈ identChars) (hd : IsDom d) (hds : ∀ x ∈ ds, IsDom x)
     (hdbc : dbc ∈ dbCore) (hdbm : ∀ x ∈ dbm, x ∈ dbCore) :
@@ -205,7 +205,7 @@ theorem Ok_complex_body (env : Env) (a : Nat) (c : Char) (m : List Char) (b : Na
   obtain ⟨dc, dm, st, rfl, hdc, hdm⟩ := hd
   have h1 := Ok_kw env 'c' ['o', 'm', 'p', 'l', 'e', 'x'] (List.replicate a ' ' ++ (c :: m ++
     (List.replicate b ' ' ++ (sign :: ('\n' :: (dc :: dm ++ star st ++ (spDoms ds ++
-    ('\n' :: (dbc :: dbm ++ ['\n']))))))))) (by decide) (by decide)
+    ('\n' :: (dbc :: dbm ++ ['\n']))))))))) (by decide) (by decide) (OutHd_kw_blanks a ha _)
   have h2 := Ok_ident env a c m (List.replicate b ' ' ++ (sign :: ('\n' :: (dc :: dm ++ star st ++ (spDoms ds ++
     ('\n' :: (dbc :: dbm ++ ['\n'])))))))
     hc hm ((OutHd_sign b sign hs _).imp (fun x hx => hx.1))
@@ -233,7 +233,7 @@ theorem Ok_complex_stmt (env : Env) (T : List Char) (res : Pos × List Tree) (N 
   unfold complexBody at hbody
   have nk : ∀ (t : String) (s : List Char) (gs : List G),
       stripPrefix s ('c' :: (['o', 'm', 'p', 'l', 'e', 'x'] ++ T)) = none →
-      No env 6 {} (.group (.tag t (.seq (.suppress (.lit s) :: gs))))
+      No env 6 {} (.group (.tag t (.seq (.suppress (.kw s identChars) :: gs))))
         { rest := 'c' :: (['o', 'm', 'p', 'l', 'e', 'x'] ++ T), past := false } :=
     fun t s gs h => No_gts_at env t s gs 'c' _ (by decide) (by decide) h
   exact (Ok_alt (OkAlt_tail (nk _ _ _ (by simp [stripPrefix]))
@@ -243,7 +243,7 @@ theorem Ok_complex_stmt (env : Env) (T : List Char) (res : Pos × List Tree) (N 
     (OkAlt_tail (nk _ _ _ (by simp [stripPrefix]))
     (OkAlt_head (Ok_alt (OkAlt_head hbody)))))))).mono (by omega)
 
-theorem complex_parse (a : Nat) (c : Char) (m : List Char) (b : Nat) (sign : Char)
+theorem complex_parse (a : Nat) (ha : 0 < a) (c : Char) (m : List Char) (b : Nat) (sign : Char)
     (hs : sign = '=' ∨ sign = ':') (d : List Char) (ds : List (List Char)) (dbc : Char) (dbm : List Char)
     (hc : c ∈ identChars) (hm : ∀ x ∈ m, x ∈ identChars) (hd : IsDom d) (hds : ∀ x ∈ ds, IsDom x)
     (hdbc : dbc ∈ dbCore) (hdbm : ∀ x ∈ dbm, x ∈ dbCore) :
@@ -251,7 +251,7 @@ theorem complex_parse (a : Nat) (c : Char) (m : List Char) (b : Nat) (sign : Cha
       (String.ofList (['c', 'o', 'm', 'p', 'l', 'e', 'x'] ++ complexText a c m b sign d ds dbc dbm)) =
     some [.grp [.tok "strand-complex", .tok (String.ofList (c :: m)),
       .grp ((d :: ds).map (fun d => .tok (String.ofList d))), .tok (String.ofList (dbc :: dbm))]] := by
-  have hb := Ok_complex_body pil_env a c m b sign hs d ds dbc dbm hc hm hd hds hdbc hdbm
+  have hb := Ok_complex_body pil_env a ha c m b sign hs d ds dbc dbm hc hm hd hds hdbc hdbm
   have hstmt := Ok_complex_stmt pil_env _ _ _ hb
   have hlen : ds.length ≤ (complexText a c m b sign d ds dbc dbm).length := by
     have := spDoms_length ds
@@ -357,7 +357,7 @@ theorem OkMany_plusdoms (env : Env) (ds : List (List Char)) (s2 : Char) (hs2 : s
     exact this reps fuel (by omega) (by omega)
 
 def structBody : G :=
-  .group (.tag "strand-complex" (.seq [.suppress (.lit ['s', 't', 'r', 'u', 'c', 't', 'u', 'r', 'e']), pil_identifier,
+  .group (.tag "strand-complex" (.seq [.suppress (.kw ['s', 't', 'r', 'u', 'c', 't', 'u', 'r', 'e'] identChars), pil_identifier,
     .suppress pil_assign, .group (.many1 (.alt [pil_domain, .suppress (.lit ['+'])])), .suppress pil_assign,
     pil_dotbracket, .many1 (.suppress .lineEnd)]))
 
@@ -366,7 +366,7 @@ def structText (a : Nat) (c : Char) (m : List Char) (s1 : Char) (d : List Char)
   List.replicate a ' ' ++ (c :: m ++ (' ' :: s1 :: ' ' :: (d ++ (psList ds ++
     (' ' :: s2 :: ' ' :: (dbc :: dbm ++ ['\n']))))))
 
-theorem Ok_struct_body (env : Env) (a : Nat) (c : Char) (m : List Char) (s1 s2 : Char)
+theorem Ok_struct_body (env : Env) (a : Nat) (ha : 0 < a) (c : Char) (m : List Char) (s1 s2 : Char)
     (hs1 : s1 = '=' ∨ s1 = ':') (hs2 : s2 = '=' ∨ s2 = ':') (d : List Char) (ds : List (List Char))
     (dbc : Char) (dbm : List Char)
     (hc : c ∈ identChars) (hm : ∀ x ∈ m, x ∈ identChars) (hd : IsDom d) (hds : ∀ x ∈ ds, IsDom x)
@@ -380,6 +380,7 @@ theorem Ok_struct_body (env : Env) (a : Nat) (c : Char) (m : List Char) (s1 s2 :
   obtain ⟨dc, dm, st, rfl, hdc, hdm⟩ := hd
   have h1 := Ok_kw env 's' ['t', 'r', 'u', 'c', 't', 'u', 'r', 'e'] (List.replicate a ' ' ++ (c :: m ++
     (' ' :: s1 :: ' ' :: (dc :: dm ++ star st ++ (psList ds ++ (' ' :: s2 :: ' ' :: (dbc :: dbm ++ ['\n']))))))) (by decide) (by decide)
+    (OutHd_kw_blanks a ha _)
   have h2 := Ok_ident env a c m (' ' :: s1 :: ' ' :: (dc :: dm ++ star st ++ (psList ds ++
     (' ' :: s2 :: ' ' :: (dbc :: dbm ++ ['\n'])))))
     hc hm (OutHd_cons _ _ _ (outside_facts ' ' (by decide)))
@@ -409,7 +410,7 @@ theorem Ok_struct_stmt (env : Env) (T : List Char) (res : Pos × List Tree) (N :
   unfold structBody at hbody
   have nk : ∀ (t : String) (s : List Char) (gs : List G),
       stripPrefix s ('s' :: (['t', 'r', 'u', 'c', 't', 'u', 'r', 'e'] ++ T)) = none →
-      No env 6 {} (.group (.tag t (.seq (.suppress (.lit s) :: gs))))
+      No env 6 {} (.group (.tag t (.seq (.suppress (.kw s identChars) :: gs))))
         { rest := 's' :: (['t', 'r', 'u', 'c', 't', 'u', 'r', 'e'] ++ T), past := false } :=
     fun t s gs h => No_gts_at env t s gs 's' _ (by decide) (by decide) h
   exact (Ok_alt (OkAlt_tail (nk _ _ _ (by simp [stripPrefix]))
@@ -419,7 +420,7 @@ theorem Ok_struct_stmt (env : Env) (T : List Char) (res : Pos × List Tree) (N :
     (OkAlt_tail (nk _ _ _ (by simp [stripPrefix]))
     (OkAlt_head (Ok_alt (OkAlt_tail (nk _ _ _ (by simp [stripPrefix])) (OkAlt_head hbody))))))))).mono (by omega)
 
-theorem struct_parse (a : Nat) (c : Char) (m : List Char) (s1 s2 : Char)
+theorem struct_parse (a : Nat) (ha : 0 < a) (c : Char) (m : List Char) (s1 s2 : Char)
     (hs1 : s1 = '=' ∨ s1 = ':') (hs2 : s2 = '=' ∨ s2 = ':') (d : List Char) (ds : List (List Char))
     (dbc : Char) (dbm : List Char)
     (hc : c ∈ identChars) (hm : ∀ x ∈ m, x ∈ identChars) (hd : IsDom d) (hds : ∀ x ∈ ds, IsDom x)
@@ -428,7 +429,7 @@ theorem struct_parse (a : Nat) (c : Char) (m : List Char) (s1 s2 : Char)
       (String.ofList (['s', 't', 'r', 'u', 'c', 't', 'u', 'r', 'e'] ++ structText a c m s1 d ds s2 dbc dbm)) =
     some [.grp [.tok "strand-complex", .tok (String.ofList (c :: m)),
       .grp ((d :: ds).map (fun d => .tok (String.ofList d))), .tok (String.ofList (dbc :: dbm))]] := by
-  have hb := Ok_struct_body pil_env a c m s1 s2 hs1 hs2 d ds dbc dbm hc hm hd hds hdbc hdbm
+  have hb := Ok_struct_body pil_env a ha c m s1 s2 hs1 hs2 d ds dbc dbm hc hm hd hds hdbc hdbm
   have hstmt := Ok_struct_stmt pil_env _ _ _ hb
   have hlen : 3 * ds.length ≤ (structText a c m s1 d ds s2 dbc dbm).length := by
     have := psList_length ds
@@ -702,7 +703,7 @@ theorem Ok_species (env : Env) (n : Nat) (c : Char) (m : List Char) (xs : List (
   exact this.mono (by omega)
 
 def rxBody (kw : List Char) : G :=
-  .group (.tag "reaction" (.seq [.suppress (.lit kw), .group (.opt pil_infobox), .group pil_species,
+  .group (.tag "reaction" (.seq [.suppress (.kw kw identChars), .group (.opt pil_infobox), .group pil_species,
     .suppress (.lit ['-', '>']), .group pil_species, .many1 (.suppress .lineEnd)]))
 
 /-- reactants, arrow, products, newline; preceded by `n` blanks -/
@@ -711,7 +712,7 @@ def rxText (n : Nat) (rc : Char) (rm : List Char) (rs : List (List Char)) (pc : 
   List.replicate n ' ' ++ (rc :: rm ++ (psList rs ++ (' ' :: '-' :: '>' :: ' ' :: (pc :: pm ++ (psList ps ++ ['\n'])))))
 
 theorem Ok_rx_body (env : Env) (kc : Char) (ks : List Char) (hk : isWs kc = false) (hk' : kc ≠ '#')
-    (T0 : List Char) (NI : Nat) (itoks : List Tree)
+    (T0 : List Char) (hT0 : OutHd (fun x => x ∉ identChars) T0) (NI : Nat) (itoks : List Tree)
     (n : Nat) (rc : Char) (rm : List Char) (rs : List (List Char)) (pc : Char) (pm : List Char) (ps : List (List Char))
     (hrc : rc ∈ identChars) (hrm : ∀ x ∈ rm, x ∈ identChars) (hrs : ∀ x ∈ rs, IsId x)
     (hpc : pc ∈ identChars) (hpm : ∀ x ∈ pm, x ∈ identChars) (hps : ∀ x ∈ ps, IsId x)
@@ -724,7 +725,7 @@ theorem Ok_rx_body (env : Env) (kc : Char) (ks : List Char) (hk : isWs kc = fals
           .grp (((pc :: pm) :: ps).map (fun d => .tok (String.ofList d)))]]) := by
   unfold rxBody
   unfold rxText at hinfo
-  have h1 := Ok_kw env kc ks T0 hk hk'
+  have h1 := Ok_kw env kc ks T0 hk hk' hT0
   have hsk1 : skipIgn (' ' :: '-' :: '>' :: ' ' :: (pc :: pm ++ (psList ps ++ ['\n']))) =
       '-' :: '>' :: ' ' :: (pc :: pm ++ (psList ps ++ ['\n'])) := by
     have := skipIgn_blanks_cons 1 '-' ('>' :: ' ' :: (pc :: pm ++ (psList ps ++ ['\n']))) (by decide) (by decide)
@@ -755,7 +756,7 @@ theorem Ok_rx_stmt (env : Env) (kw : List Char)
   rcases hkw with rfl | rfl
   · have nk : ∀ (t : String) (s : List Char) (gs : List G),
         stripPrefix s ('r' :: (['e', 'a', 'c', 't', 'i', 'o', 'n'] ++ T)) = none →
-        No env 6 {} (.group (.tag t (.seq (.suppress (.lit s) :: gs))))
+        No env 6 {} (.group (.tag t (.seq (.suppress (.kw s identChars) :: gs))))
           { rest := ['r', 'e', 'a', 'c', 't', 'i', 'o', 'n'] ++ T, past := false } :=
       fun t s gs h => No_gts_at env t s gs 'r' _ (by decide) (by decide) h
     exact (Ok_alt (OkAlt_tail (nk _ _ _ (by simp [stripPrefix]))
@@ -768,7 +769,7 @@ theorem Ok_rx_stmt (env : Env) (kw : List Char)
       (OkAlt_head (Ok_alt (OkAlt_tail (nk _ _ _ (by simp [stripPrefix])) (OkAlt_head hbody)))))))))).mono (by omega)
   · have nk : ∀ (t : String) (s : List Char) (gs : List G),
         stripPrefix s ('k' :: (['i', 'n', 'e', 't', 'i', 'c'] ++ T)) = none →
-        No env 6 {} (.group (.tag t (.seq (.suppress (.lit s) :: gs))))
+        No env 6 {} (.group (.tag t (.seq (.suppress (.kw s identChars) :: gs))))
           { rest := ['k', 'i', 'n', 'e', 't', 'i', 'c'] ++ T, past := false } :=
       fun t s gs h => No_gts_at env t s gs 'k' _ (by decide) (by decide) h
     exact (Ok_alt (OkAlt_tail (nk _ _ _ (by simp [stripPrefix]))
@@ -822,7 +823,8 @@ theorem rx_plain_parse (kw : List Char)
     exact (Ok_group (Ok_opt_none (No_seq (NoSeq_head this)))).mono (by decide)
   obtain ⟨f1, f2⟩ := rxText_facts (a + 1) rc rm rs pc pm ps hrc hrm hrs hpc hpm hps
   rcases hkw with rfl | rfl
-  · have hb := Ok_rx_body pil_env 'r' ['e', 'a', 'c', 't', 'i', 'o', 'n'] (by decide) (by decide) _ _ _
+  · have hb := Ok_rx_body pil_env 'r' ['e', 'a', 'c', 't', 'i', 'o', 'n'] (by decide) (by decide) _
+      (by unfold rxText; exact OutHd_kw_blanks (a + 1) (Nat.succ_pos a) _) _ _
       (a + 1) rc rm rs pc pm ps hrc hrm hrs hpc hpm hps hinfo
     have hstmt := Ok_rx_stmt pil_env ['r', 'e', 'a', 'c', 't', 'i', 'o', 'n'] (Or.inl rfl) _ _ _ hb
     refine parse_stmt' _ 'r' _ _ _ (skipIgn_cons 'r' _ (by decide) (by decide)) (by decide) hstmt ?_ ?_
@@ -831,7 +833,8 @@ theorem rx_plain_parse (kw : List Char)
       rcases List.mem_append.mp h with h | h
       · revert h; decide
       · exact f2 h
-  · have hb := Ok_rx_body pil_env 'k' ['i', 'n', 'e', 't', 'i', 'c'] (by decide) (by decide) _ _ _
+  · have hb := Ok_rx_body pil_env 'k' ['i', 'n', 'e', 't', 'i', 'c'] (by decide) (by decide) _
+      (by unfold rxText; exact OutHd_kw_blanks (a + 1) (Nat.succ_pos a) _) _ _
       (a + 1) rc rm rs pc pm ps hrc hrm hrs hpc hpm hps hinfo
     have hstmt := Ok_rx_stmt pil_env ['k', 'i', 'n', 'e', 't', 'i', 'c'] (Or.inr rfl) _ _ _ hb
     refine parse_stmt' _ 'k' _ _ _ (skipIgn_cons 'k' _ (by decide) (by decide)) (by decide) hstmt ?_ ?_
@@ -907,7 +910,8 @@ theorem rx_info_parse (tc : Char) (tm : List Char) (dc : Char) (dm : List Char) 
   have htc' := (alphas_facts tc htc).1
   have htm' : ∀ x ∈ tm, x ∈ identChars := fun x hx => (alphas_facts x (htm x hx)).1
   have hinfo := Ok_infobox pil_env tc tm dc dm cus tu (rxText 1 rc rm rs pc pm ps) htc' htm' hdc hdm hcu htu
-  have hb := Ok_rx_body pil_env 'r' ['e', 'a', 'c', 't', 'i', 'o', 'n'] (by decide) (by decide) _ _ _
+  have hb := Ok_rx_body pil_env 'r' ['e', 'a', 'c', 't', 'i', 'o', 'n'] (by decide) (by decide) _
+    (by unfold infoText; exact OutHd_cons _ _ _ (outside_facts ' ' (by decide))) _ _
     1 rc rm rs pc pm ps hrc hrm hrs hpc hpm hps hinfo
   have hstmt := Ok_rx_stmt pil_env ['r', 'e', 'a', 'c', 't', 'i', 'o', 'n'] (Or.inl rfl) _ _ _ hb
   obtain ⟨f1, f2⟩ := rxText_facts 1 rc rm rs pc pm ps hrc hrm hrs hpc hpm hps
@@ -1090,7 +1094,7 @@ theorem TailOK_conc (mode : List Char) (vc : Char) (vm unit : List Char) : TailO
 
 theorem kernel_conc_parse (nc : Char) (m : List Char) (L : List Ent) (toks : List Tree)
     (mode : List Char) (vc : Char) (vm unit : List Char)
-    (hnc : nc ∈ identChars) (hm : ∀ x ∈ m, x ∈ identChars) (hk : NoKw (nc :: m)) (hL : L ≠ [])
+    (hnc : nc ∈ identChars) (hm : ∀ x ∈ m, x ∈ identChars) (hL : L ≠ [])
     (hleg : ∀ e ∈ L, LegalEnt e) (hp : pItems (2 * L.length + 1) L = some (toks, []))
     (hmode : IsMode mode) (hvc : vc ∈ pp_nums) (hvm : ∀ x ∈ vm, x ∈ pp_nums) (hu : IsCunit unit) :
     parseDoc pil_env pil_grammar (String.ofList (kernelText nc m L (concText mode vc vm unit))) =
@@ -1108,7 +1112,7 @@ theorem kernel_conc_parse (nc : Char) (m : List Char) (L : List Ent) (toks : Lis
       (OkSeq_cons h4 (OkSeq_cons h5 (OkSeq_nil pil_env _ _))))))))
     simp only [List.nil_append, List.append_nil, List.cons_append] at this
     exact this.mono (by omega)
-  have hstmt := stmt_before_cplx nc m _ hnc hk _ _ (OkAlt_head (gs := [pil_restingset]) hc)
+  have hstmt := stmt_before_cplx nc m _ hnc hm _ _ (OkAlt_head (gs := [pil_restingset]) hc)
   have hXt : '\t' ∉ concText mode vc vm unit := by
     have n1 : '\t' ∉ mode := by rcases hmode with rfl | rfl | rfl | rfl <;> decide
     have n2 := notab_of_nums (vc :: vm) (by intro x hx; rcases List.mem_cons.mp hx with rfl | h; exact hvc; exact hvm x h)
